@@ -775,6 +775,22 @@ func schedCheck(prop, tier string) int {
 		run.Set("sensitivity_pairs_compared", npairs)
 		run.Set("multisets", len(byMultiset))
 	}
+	// supplementary free-running pass under the race detector (never the deciding step)
+	if f := os.Getenv("VERIF_SUPP"); f != "" {
+		var ro struct {
+			Runs   int64          `json:"hash_calls"`
+			Procs  []int          `json:"gomaxprocs"`
+			Shapes int            `json:"list_shapes"`
+			Viol   []ev.Violation `json:"viol"`
+		}
+		if data, err := os.ReadFile(f); err == nil && json.Unmarshal(data, &ro) == nil {
+			for _, v := range ro.Viol {
+				run.Report(v)
+			}
+			run.Set("supplementary_race_pass", map[string]any{"hash_calls_under_race_detector": ro.Runs, "gomaxprocs": ro.Procs, "list_shapes": ro.Shapes,
+				"what": "the unmodified hash package, free-running, built with -race: empty / short / duplicate / directory / missing / dangling / unreadable lists and sizes NumCPU-1, NumCPU, NumCPU+1, 4*NumCPU and 1000 with a missing entry at front, middle and end; goroutine count must settle to the baseline. Supplementary only: it can add alarms backed by a race-detector report, it never decides the property"})
+		}
+	}
 	run.Set("states", int64(len(cfgs))+states)
 	run.Set("transitions", points)
 	run.Set("traces_validated_against_impl", execs)
